@@ -837,6 +837,8 @@ def _r8_column_layout(ctx):
                      "so any extra column or another column order silently changes the gradient" % len(positional),
                      text="unprojected frame")
         return
+    if isinstance(e, ast.Subscript) and is_self_attr(e.value, "_obj") and isinstance(e.slice, ast.Name):
+        e = ast.Subscript(value=e.value, slice=inline_single_defs(g.node, e.slice), ctx=ast.Load())     # a named column list
     if isinstance(e, ast.Subscript) and is_self_attr(e.value, "_obj") and isinstance(e.slice, (ast.List, ast.Tuple)):
         cols = [const_value(x_) if not (isinstance(x_, ast.Name) and x_.id == vparam) else "<value>" for x_ in e.slice.elts]
         if cols == ["x", "y", "z", "<value>"]:
